@@ -277,13 +277,27 @@ fn sweep(w: &World, chain: &mut PatchChain) -> Value {
     let mut rd = [Vec::new(), Vec::new(), Vec::new()];
     let mut has = Vec::new();
     let mut fnd = Vec::new();
+    let mut panics: Vec<String> = Vec::new();
     for n in &w.names {
         let sp = spellings(&w.real[n]);
         for k in 0..3 {
             rd[k].push(read_obs(chain, &sp[k]));
         }
-        has.push(json!([chain.contains_file(&sp[0]), chain.contains_file(&sp[1]), chain.contains_file(&sp[2])]));
-        fnd.push(json!(chain.find_file_archive(&sp[1]).map(|p| w.arch_of(p)).unwrap_or_default()));
+        // a panic of the code under test is data: recorded in `panics`, never a harness failure
+        match guarded(|| [chain.contains_file(&sp[0]), chain.contains_file(&sp[1]), chain.contains_file(&sp[2])]) {
+            Outcome::Done(h) => has.push(json!(h)),
+            _ => {
+                panics.push(format!("contains:{n}"));
+                has.push(json!([false, false, false]));
+            }
+        }
+        match guarded(|| chain.find_file_archive(&sp[1]).map(|p| w.arch_of(p)).unwrap_or_default()) {
+            Outcome::Done(f) => fnd.push(json!(f)),
+            _ => {
+                panics.push(format!("find:{n}"));
+                fnd.push(json!(""));
+            }
+        }
     }
     let (lres, lst, lstx) = match guarded(|| chain.list()) {
         Outcome::Done(Ok(es)) => {
@@ -301,7 +315,7 @@ fn sweep(w: &World, chain: &mut PatchChain) -> Value {
         Outcome::Panic(_) => ("panic".into(), vec![], vec![]),
         Outcome::Hang => ("hang".into(), vec![], vec![]),
     };
-    json!({"rd":rd[0],"rd2":rd[1],"rd3":rd[2],"has":has,"fnd":fnd,"lres":lres,"lst":lst,"lstx":lstx})
+    json!({"rd":rd[0],"rd2":rd[1],"rd3":rd[2],"has":has,"fnd":fnd,"lres":lres,"lst":lst,"lstx":lstx,"panics":panics})
 }
 
 fn list_arg(w: &World, dir: &Path, op: &Value) -> Vec<(PathBuf, i32)> {
@@ -345,8 +359,10 @@ fn apply_op(w: &World, dir: &Path, chain: &mut PatchChain, op: &Value) -> (Strin
 }
 
 fn chain_obs(w: &World, chain: &mut PatchChain) -> Value {
-    let info = chain.get_chain_info();
-    Value::Array(info.iter().map(|i| json!([w.arch_of(&i.path), i.priority])).collect())
+    match guarded(|| chain.get_chain_info()) {
+        Outcome::Done(info) => Value::Array(info.iter().map(|i| json!([w.arch_of(&i.path), i.priority])).collect()),
+        _ => json!([["?panic", 0]]),
+    }
 }
 
 fn op_event(w: &World, dir: &Path, chain: &mut PatchChain, case: &str, op: &Value, do_sweep: bool) -> Value {
@@ -356,7 +372,7 @@ fn op_event(w: &World, dir: &Path, chain: &mut PatchChain, case: &str, op: &Valu
     let sw = if do_sweep {
         sweep(w, chain)
     } else {
-        json!({"rd":[],"rd2":[],"rd3":[],"has":[],"fnd":[],"lres":"","lst":[],"lstx":[]})
+        json!({"rd":[],"rd2":[],"rd3":[],"has":[],"fnd":[],"lres":"","lst":[],"lstx":[],"panics":[]})
     };
     json!({"ev":"Op","case":case,"op":gs(op,"op"),"a":gs(op,"a"),"p":gi(op,"p"),"l":op["l"],
            "res":res,"resv":resv,"count":n,"chain":ch,"sw":do_sweep,"obs":sw})
@@ -584,6 +600,13 @@ fn main() {
                 }
             });
         }
+        struct StopOnDrop<'a>(&'a std::sync::atomic::AtomicBool);
+        impl Drop for StopOnDrop<'_> {
+            fn drop(&mut self) {
+                self.0.store(true, std::sync::atomic::Ordering::Relaxed);
+            }
+        }
+        let _stop_guard = StopOnDrop(&stop);
         let blocks: std::sync::Mutex<Vec<Vec<Value>>> = std::sync::Mutex::new(vec![Vec::new(); groups.len()]);
         par_for(groups.len(), 6, |g| {
             let mut evs = Vec::new();
